@@ -57,3 +57,12 @@ GROUPS += [
           assumed=["exact/verdict: callees (QSload_basis, build_internal_lpinfo, ILLbasis_load/factor, ILLfct_compute_*, ILLfct_check_*, ILLfct_set_status_values) are nondeterministic stubs recording call order and arguments; their own contracts are decided in fct/*, basis/load, qsb/*"])
     for fn, cov in [("optimalstatus", "reach_optimal"), ("dualstatus", "reach_dual_infeasible")]
 ]
+
+GROUPS += [
+    Group("exact/verify", "exact_gating.c", tus=["exact.c"], model=MODEL, defines=["FN_verify"], dfcc=False, std_checks=False,
+          remove_bodies=["QSexact_optimal_test", "QSexact_infeasible_test", "optimal_output", "infeasible_output", "QScopy_prob_mpq_dbl", "QScopy_prob_mpq_mpf"],
+          unwind=3, timeout=900, must_fail=["reach_end", "reach_accepted_by_prestep", "reach_prestep_then_exact_test"],
+          functions=["QSexact_verify", "QSexact_basis_dualstatus"], props=["C12", "C18"],
+          note="loop-free plumbing (solution arrays of length 0); every callee outside exact.c is an arbitrary-result stub",
+          assumed=[GATING_ASSUMED, "exact/verify: with messages enabled (msg_lvl == 0) the caller passes a dobjval (the message reads it)"]),
+]
